@@ -711,6 +711,7 @@ Definition consumer_spec (c : consumer) (l : list res) : option cres :=
   | CNexts _ => None
   | CFor quiet => Some (fin (fun c => VInt (Z.of_N c)) (fold_spec _ (f_for quiet) (inl 0) l))
   | CUnpack _ => None
+  | CScript _ => None
   end.
 
 Theorem consumers_are_folds : forall c it l r, Sem it l -> consumer_spec c l = Some r ->
